@@ -143,3 +143,5 @@ func (m *MultipartModel) Pending(bucket string) []*Upload {
 	})
 	return us
 }
+
+func (p Part) Size() int64 { return int64(len(p.Body)) }
